@@ -1121,6 +1121,7 @@ def run_shard(spec_):
     for i in range(spec_["n"]):
         uid = f"{spec_['seed'] % 46656:x}x{i:x}"
         spec = gen_case(rng, pid, uid)
+        spec["hist"] = [spec_["seed"], i]
         run, V = run_case(spec, acc)
         acc.evaluations += 1
         for k, n in V.events.items():
@@ -1153,6 +1154,15 @@ def replay(pid, case):
     case["pid"] = pid
     run, V = run_case(case, acc)
     mine = [d for d in V.div if d[0] in (pid, "ALL")]
+    if not mine and "hist" in case:
+        # not reproducible alone: repeat it behind the robots that ran before it in its shard (process-wide state in the
+        # library: caches keyed by id(), class-level containers, counters)
+        seed, idx = case["hist"]
+        rng = random.Random(seed)
+        for i in range(idx):
+            run_case(gen_case(rng, pid, f"{seed % 46656:x}x{i:x}"), Acc())
+        run, V = run_case(case, Acc())
+        mine = [d for d in V.div if d[0] in (pid, "ALL")]
     if not mine:
         return None
     d = mine[0]
